@@ -86,7 +86,7 @@ reg(Prop("C07", ["Properties_C07"], [
 
 reg(Prop("C20", ["Properties_C20"], [
     Stream("mem", "mem", streamgen.mem_cases, flavours=("rel", "dbg"), nontrivial=lambda c, l: True,
-           rule="guard functions on a dense boundary grid (2^i +- delta)^2 plus random operands; _cbor_alloc_multiple / _cbor_realloc_multiple request sizes via a recording allocator; growth step of an indefinite array with faked capacities up to 2^64-1"),
+           rule="guard functions on a dense boundary grid (2^i +- delta)^2 plus random operands; _cbor_alloc_multiple / _cbor_realloc_multiple request sizes via a recording allocator; growth step of an indefinite array, of an indefinite map (through cbor_map_add) and of the chunk table of an indefinite byte / text string with faked capacities up to 2^64-1 (request size or none, metadata unchanged, no reference taken)"),
     Stream("load-sizes", "load", lambda ctx: [c for c in cborgen.load_cases(ctx) if len(c) >= 10 and c[:2] in ("5a", "5b", "7a", "7b", "9a", "9b", "ba", "bb", "81")][:4000],
            args=(LDEF, CAP), flavours=("rel",), spec="load_spec", nontrivial=not_trivial_load,
            rule="declared counts / lengths near 2^16..2^64 through cbor_load with a size-cap allocator"),
@@ -170,6 +170,12 @@ def pairs_xy(ctx):
     for x in special:
         for t in range(256):
             out.append(x + [t])
+    # every head form (all argument widths, non-empty containers, tags, strings) followed by 0..10 and 16 further bytes:
+    # what a head reader does may not depend on how much input follows the item
+    tails = [[0x05] * k for k in list(range(0, 11)) + [16]] + [[0x82, 0x03, 0x04], [0xFF] * 9]
+    for x in cborgen.wide_heads() + cborgen.leaf_encs():
+        for t in tails:
+            out.append(x.bs + t)
     return [cborgen.hx(b) for b in out]
 
 def seq_cases(ctx):
@@ -269,6 +275,9 @@ def container_hist_cases(ctx):
     for n in ((40, 130, 1100) if ctx.tier == "quick" else (40, 130, 1100, 2049, 4100)):
         out.append(close_history(["bi 0 8 1", "nia"] + ["push 1 0"] * n, probe_every=max(1, n // 12)))
         out.append(close_history(["bi 0 8 1", "nim", "bc 20"] + ["madd 1 0 2"] * (n // 2), probe_every=max(1, n // 12)))
+        # the chunk tables of indefinite byte and text strings grow by the same rule (the allocator trace counts and sizes every realloc)
+        for t in (0, 1):
+            out.append(close_history(["bs %d 6162" % t, "nis %d" % t] + ["chunk 1 0"] * (n // 2 if n > 1000 else n), probe_every=max(1, n // 12)))
     return out
 
 def close_history(ops, probe_every=1):
@@ -417,6 +426,11 @@ PROPS["C20"].streams.append(Stream("ser", "ser", treegen.ser_cases, flavours=("r
 PROPS["C07"].streams.append(sizesser())
 PROPS["C04"].streams.append(struct_fault(("rel",), None, "growth-fault"))
 PROPS["C12"].streams.append(struct_fault(("rel",), None, "growth-fault"))
+# "container growth never computes a smaller capacity than it had" at capacities no real container reaches (metadata faked as in
+# the library's own overflow tests): the growth step of arrays, maps and chunk tables as the request the allocator sees
+PROPS["C12"].streams.append(Stream("grow", "mem", lambda ctx: [c for c in streamgen.mem_cases(ctx) if c.startswith("grow")], flavours=("rel",),
+                                   nontrivial=lambda c, l: True,
+                                   rule="growth step of an indefinite array / map / chunk table with faked capacities 2^i +- 2 up to 2^64-1: the request handed to the allocator is exactly max 1 (2 cap) elements or none; metadata unchanged and no reference taken when refused"))
 
 sethandle = lambda flavours=("rel",), env=None, name="set-handle": Stream(
     name, "hist", histgen.sethandle_cases, args=(LDEF, CAP, "none", 0), flavours=flavours, env=env, nontrivial=lambda c, l: "seth" in c,
